@@ -1,6 +1,7 @@
 package e1front
 
 import (
+	"io"
 	"bytes"
 	"context"
 	"errors"
@@ -52,6 +53,11 @@ type CtxPlan struct {
 	// Siblings > 0: another kind of plan - that many connections share ONE
 	// context (see executeSiblings); only Base, EndKind and Reps apply.
 	Siblings int `json:"siblings,omitempty"`
+	// Replay (scenarios in which the hello arrives): the context is over before
+	// the call, and the transport hands out the hello from memory whatever its
+	// deadlines say (bytes a sniffing layer peeked and now replays); reads past
+	// them reach the real connection.
+	Replay bool `json:"replay,omitempty"`
 	// HRRLater: after the return (and the end of the context) the backend
 	// answers with a HelloRetryRequest before the later I/O.
 	HRRLater bool   `json:"hrr_later,omitempty"`
@@ -70,6 +76,22 @@ type CtxPlan struct {
 	// Spin (InRead == "cancel-async"): the context is cancelled by another
 	// goroutine that spins this many times after the hello was handed over.
 	Spin int `json:"spin,omitempty"`
+}
+
+// replayConn hands out buf before it reads from the connection, whatever the
+// deadlines are.
+type replayConn struct {
+	net.Conn
+	buf []byte
+}
+
+func (c *replayConn) Read(p []byte) (int, error) {
+	if len(c.buf) > 0 {
+		n := copy(p, c.buf)
+		c.buf = c.buf[n:]
+		return n, nil
+	}
+	return c.Conn.Read(p)
 }
 
 // hookCtx is a context whose methods are control points: the simulator may
@@ -306,9 +328,26 @@ func executeCtx(t *testing.T, prop string, seed uint64, p *CtxPlan) *core.Result
 					}
 				}
 			}
+			var tr net.Conn = fc
+			if p.Replay {
+				for int(fc.In().Delivered()) < len(rec) {
+					time.Sleep(100 * time.Microsecond)
+				}
+				synctest.Wait()
+				peeked := make([]byte, len(rec))
+				if _, err := io.ReadFull(fc, peeked); err != nil {
+					res.Harness = "peeking the hello: " + err.Error()
+					cancel()
+					return
+				}
+				tr = &replayConn{Conn: fc, buf: peeked}
+				cancel() // over before the call
+				endedDuring = true
+				res.Probe("context_over_before_the_call_hello_replayed")
+			}
 			var conn *ech.Conn
 			var nerr error
-			pk, m, s := core.Guard(func() { conn, nerr = ech.NewConn(ctx, fc, keyOptions(b.keys)...) })
+			pk, m, s := core.Guard(func() { conn, nerr = ech.NewConn(ctx, tr, keyOptions(b.keys)...) })
 			retSeq := w.Seq()
 			fc.ReadHook = nil
 			if asyncDone != nil {
@@ -524,6 +563,7 @@ func genC10(seed uint64, idx int) *Plan {
 	c.Frags = 1 + r.IntN(6)
 	c.LatUs = []int{0, 10, 1000, 50000}[r.IntN(4)]
 	c.HRRLater = (idx/32)%2 == 1
+	c.Replay = idx%9 == 4 && (idx/4)%8 < 5
 	c.SecondConn = idx%3 == 1 && (idx/4)%8 < 6
 	if idx%5 == 2 {
 		c.Parked = 20
